@@ -811,3 +811,69 @@ func (w *World) WasmDeployTx(r *verifutil.Rng, from *Actor) *types.Transaction {
 	pl, _ := att.ToBytes()
 	return w.TxGas(from, types.DeployContractTx, nil, nil, pl, 400000)
 }
+
+// SignerOf recovers the signer of tx from its signature with the crypto primitives only (no
+// per-object memo, no cache, no validation rule): the address whose key really signed THIS
+// content, ok=false if no key did.
+func SignerOf(tx *types.Transaction) (common.Address, bool) {
+	if len(tx.Signature) == 0 {
+		return common.Address{}, false
+	}
+	h := crypto.SignatureHash(tx)
+	pub, err := crypto.Ecrecover(h[:], tx.Signature)
+	if err != nil {
+		return common.Address{}, false
+	}
+	a, err := crypto.PubKeyBytesToAddress(pub)
+	if err != nil {
+		return common.Address{}, false
+	}
+	return a, true
+}
+
+// ForgedSignatureTxs: transactions nobody's key signed that try to spend an existing account -
+// (a) other content under the signature bytes copied from a recent tx of the victim, with the
+// victim's next nonce; (b) a non-empty signature no key can be recovered from (it resolves to the
+// all-zero address, which is a funded account: the zero wallet), with the zero wallet's next nonce.
+func (w *World) ForgedSignatureTxs(r *verifutil.Rng) []*Gen {
+	st := w.View().AppState.State
+	ep := st.Epoch()
+	var out []*Gen
+	thief := w.AddActor("thief", 0)
+	// (a)
+	for i := len(w.Blocks) - 1; i >= 0 && i > len(w.Blocks)-12 && len(out) < 2; i-- {
+		for _, old := range w.Blocks[i].Body.Transactions {
+			v := senderOf(old)
+			va, ok := w.ByAddr[v]
+			if !ok || st.GetBalance(v).Cmp(Dna(3)) < 0 {
+				continue
+			}
+			amount := new(big.Int).Div(st.GetBalance(v), big.NewInt(int64(r.Range(2, 6))))
+			probe := &types.Transaction{AccountNonce: w.StateNonce(va), Epoch: ep, Type: types.SendTx, To: &thief.Addr, Amount: amount, MaxFee: Dna(1)}
+			probe.MaxFee = new(big.Int).Add(new(big.Int).Mul(w.FeeFor(probe), big.NewInt(3)), big.NewInt(1000))
+			probe.Signature = append([]byte{}, old.Signature...)
+			out = append(out, &Gen{Tx: probe, Kind: "forged:signature-bytes-copied-from-a-tx-of-the-victim"})
+			break
+		}
+	}
+	// (b)
+	zero := common.Address{}
+	if bal := st.GetBalance(zero); bal.Cmp(Dna(1)) > 0 {
+		nonce := uint32(1)
+		if st.GetEpoch(zero) == ep {
+			nonce = st.GetNonce(zero) + 1
+		}
+		for _, v := range []byte{27, 28, 4, 255} {
+			tx := &types.Transaction{AccountNonce: nonce, Epoch: ep, Type: types.SendTx, To: &thief.Addr, Amount: new(big.Int).Div(bal, big.NewInt(3)), MaxFee: Dna(1)}
+			tx.MaxFee = new(big.Int).Add(new(big.Int).Mul(w.FeeFor(tx), big.NewInt(3)), big.NewInt(1000))
+			sig := r.Bytes(65)
+			sig[64] = v
+			tx.Signature = sig
+			if _, ok := SignerOf(tx); ok {
+				continue
+			}
+			out = append(out, &Gen{Tx: tx, Kind: "forged:unrecoverable-signature-spends-the-zero-wallet"})
+		}
+	}
+	return out
+}
